@@ -467,11 +467,18 @@ func (w *World) Close() {
 // after every operation, a difference kills the world). Everything a later operation
 // of either store reads is in that report: creation info (value), every attempt
 // with amounts, MPP/blinded records and resolution, the failure reason, the index
-// listing. Dropped: sequence numbers / row ids (only order listings; the listing
-// order itself is in the key), timestamps, session keys, onion blobs, preimage and
-// failure details (constants of the universe, never read by a decision), and the
-// KVStore's in-memory sequence allocator (only feeds sequence numbers). A world in
-// which a violation was reported is "dead": it is never expanded.
+// listing. The arguments of the next operations are functions of the report, too: the
+// amount an InitPayment carries (nextValue of the reported amount) and the attempt
+// amounts / record totals (fractions of the reported amount). Dropped: sequence
+// numbers / row ids (only order listings; the listing order itself is in the key),
+// timestamps, session keys, onion blobs, preimage and failure details (constants of
+// the universe, never read by a decision), and the KVStore's in-memory sequence
+// allocator. The allocator is the one piece of state a restart rebuilds: whether it is
+// cold or warm is NOT in the key, therefore `reopen` is not an alphabet letter (the
+// search would stop behind it); instead every distinct state gets the restart probe
+// of runSpace (`reopen; init:hA; reopen; init:hB` judged by all clauses), which covers
+// the only consumer of that state (InitPayment) on a cold allocator in every state.
+// A world in which a violation was reported is "dead": it is never expanded.
 func (w *World) Key() string {
 	if w.dead != "" {
 		return "DEAD:" + w.dead
